@@ -1001,3 +1001,131 @@ func splitTop(s string) []string {
 	out = append(out, strings.TrimSpace(s[start:]))
 	return out
 }
+
+// ---------------------------------------------------------------------
+// Robust view of a contract with ghosts (flags robust)
+//
+// A contract with ghost parameters speaks about inputs of a known provenance ("data is the encoding of img").  Its
+// robust view drops the ghosts and every clause that mentions one (directly or through a `let`): what remains is what
+// the function guarantees for ARBITRARY inputs - safety, termination and the ghost-free post-conditions.  The robust
+// view is verified as a unit of its own; callers that do not bind the ghosts are checked against it.
+
+func exprMentions(e Expr, names map[string]bool) bool {
+	found := false
+	var walk func(e Expr)
+	walkAll := func(es []Expr) {
+		for _, a := range es {
+			walk(a)
+		}
+	}
+	walk = func(e Expr) {
+		if found || e == nil {
+			return
+		}
+		switch v := e.(type) {
+		case EIdent:
+			if names[v.Name] {
+				found = true
+			}
+		case EBin:
+			walk(v.L)
+			walk(v.R)
+		case EUn:
+			walk(v.X)
+		case EIndex:
+			walk(v.X)
+			walk(v.I)
+		case ESlice:
+			walk(v.X)
+			walk(v.Lo)
+			walk(v.Hi)
+		case ESel:
+			walk(v.X)
+		case ECall:
+			walk(v.Fun)
+			walkAll(v.Args)
+		case EQuant:
+			walk(v.Body)
+			for _, t := range v.Triggers {
+				walkAll(t)
+			}
+		case ECond:
+			walk(v.C)
+			walk(v.A)
+			walk(v.B)
+		case ELet:
+			walk(v.Val)
+			walk(v.Body)
+		case EOld:
+			walk(v.X)
+		case EEntry:
+			walk(v.X)
+		case EPrev:
+			walk(v.X)
+		}
+	}
+	walk(e)
+	return found
+}
+
+func (f *FuncContract) RobustView() *FuncContract {
+	taint := map[string]bool{}
+	for _, g := range f.Ghosts {
+		taint[g.Name] = true
+	}
+	r := *f
+	r.Ghosts = nil
+	r.Binds = nil
+	r.Flags = map[string]bool{}
+	for k, v := range f.Flags {
+		if k != "robust" {
+			r.Flags[k] = v
+		}
+	}
+	r.Flags["robustview"] = true
+	keep := func(cs []Clause) []Clause {
+		var out []Clause
+		for _, c := range cs {
+			if !exprMentions(c.Expr, taint) {
+				out = append(out, c)
+			}
+		}
+		return out
+	}
+	r.Lets = nil
+	for _, c := range f.Lets {
+		if exprMentions(c.Expr, taint) {
+			taint[c.Label] = true
+		} else {
+			r.Lets = append(r.Lets, c)
+		}
+	}
+	r.Requires = keep(f.Requires)
+	r.Ensures = keep(f.Ensures)
+	r.AtReturn = keep(f.AtReturn)
+	r.Callsite = nil
+	for _, cs := range f.Callsite {
+		if !exprMentions(cs.Clause.Expr, taint) {
+			r.Callsite = append(r.Callsite, cs)
+		}
+	}
+	r.Measure = nil
+	for _, m := range f.Measure {
+		if !exprMentions(m, taint) {
+			r.Measure = append(r.Measure, m)
+		}
+	}
+	r.Loops = map[int]*LoopContract{}
+	for k, lc := range f.Loops {
+		n := &LoopContract{Ordinal: lc.Ordinal}
+		n.Hints = keep(lc.Hints)
+		n.Steps = keep(lc.Steps)
+		n.Splits = keep(lc.Splits)
+		n.Invariants = keep(lc.Invariants)
+		if lc.Decreases != nil && !exprMentions(lc.Decreases.Expr, taint) {
+			n.Decreases = lc.Decreases
+		}
+		r.Loops[k] = n
+	}
+	return &r
+}
